@@ -50,6 +50,17 @@ CHECKS = {
         ref="3/C04",
         technique="deterministic simulation (fault-free control run): seeded configuration search with entropy seam (edge values), reference-model oracle",
     ),
+    "C06": dict(
+        level="fault_enumeration",
+        text=("mis-provisioning fault sweep: the complete cell space algorithm x key variant (other kty / curve / size incl. "
+              "other valid AES sizes / RSA-1024 / public-only / wrong use / key_ops lacking the operation / ECDH-1PU sender on "
+              "another curve) x operation path (13 JWS incl. RFC 7797, JSON, JWT; 8 JWE incl. add_recipient-attached keys) is "
+              "enumerated in every invocation with re-seeded key material; consuming cells use tokens minted by the reference "
+              "peer; attacker events (MAC keyed with a public-key encoding, key text imported as a secret). Oracle: suitability "
+              "model from the statement. Partial fit: the fault model is configuration, there is no schedule."),
+        ref="3/C06",
+        technique="deterministic simulation: mis-provisioning fault enumeration with a reference peer minting inputs, suitability model",
+    ),
     "C07": dict(
         level="exploration",
         text=("heterogeneous cluster: joserfc nodes and an independent RFC implementation exchange JWS in both directions over "
@@ -77,6 +88,15 @@ CHECKS = {
               "the documentation, so any dependence on earlier calls shows; violations are delta-debugged over the history."),
         ref="3/C05",
         technique="deterministic simulation: seeded operation histories on shared state checked step by step against a memoryless reference model, ddmin over the history",
+    ),
+    "C09": dict(
+        level="exploration",
+        text=("JWT issuer -> wire -> consumer over the JWS and JWE transports with the node time zone set per run (TZ + tzset), "
+              "seeded claims sets (depth, unicode, numeric ranges, naive / aware datetimes), a Byzantine authenticated issuer "
+              "emitting non-object / non-JSON payloads under valid signatures / tags, and wire-faulted tokens; JSON-equality, "
+              "header and caller-header-unchanged oracles. Partial fit, stated."),
+        ref="3/C09",
+        technique="deterministic simulation: Byzantine authenticated issuer + node time-zone fault + wire faults, JSON / datetime reference model",
     ),
     "C10": dict(
         level="exploration",
